@@ -574,7 +574,7 @@ func (s *scen) run(steps []Ev) {
 		case "Got":
 			s.pgotM += st.N
 			to := s.wst.real(s.pgotM, s.cfg.scale)
-			wait := s.cfg.budget / 4
+			wait := 150 * time.Millisecond // the write completed before: the bytes are there or never come
 			if !s.cfg.exact {
 				wait = 5 * time.Millisecond
 			}
